@@ -151,6 +151,13 @@ func Binding(k keeper.Keeper, ctx sdk.Context, tag, svc string, provider, owner 
 
 // RefPrice is the harness's reference fee: max(1, trunc(base x discountByTime x discountByVolume)).
 func RefPrice(p types.Pricing, now time.Time, volume uint64) sdk.Int {
+	dT, dV := RefDiscounts(p, now, volume)
+	fee := sdk.NewDecFromInt(p.Price.AmountOf(Denom)).Mul(dT).Mul(dV).TruncateInt()
+	return sdk.MaxInt(fee, sdk.OneInt())
+}
+
+// RefDiscounts: the time promotion in effect at now and the volume promotion for the volume delivered so far.
+func RefDiscounts(p types.Pricing, now time.Time, volume uint64) (sdk.Dec, sdk.Dec) {
 	dT := sdk.OneDec()
 	for _, pr := range p.PromotionsByTime {
 		if !now.Before(pr.StartTime) && now.Before(pr.EndTime) {
@@ -164,8 +171,7 @@ func RefPrice(p types.Pricing, now time.Time, volume uint64) sdk.Int {
 			dV = pr.Discount
 		}
 	}
-	fee := sdk.NewDecFromInt(p.Price.AmountOf(Denom)).Mul(dT).Mul(dV).TruncateInt()
-	return sdk.MaxInt(fee, sdk.OneInt())
+	return dT, dV
 }
 
 type CtxSpec struct {
